@@ -44,9 +44,16 @@ Definition c13_id (c : c13case) : N := match c with CProm i _ _ _ _ => i end.
 Definition c13_model (omit emit : bool) (s : list (list (metric N))) : list (sample N) :=
   collect bits_ops of_int_bits 0 {| omit_prog := omit; emit_ts := emit |} s.
 
+(* the tabulated representability oracle (prometheus.NewDesc + NewConstMetric
+   called by the harness) agrees with the concrete rules of Export/Prom.v on
+   every label set of the store *)
+Definition repr_agrees (omit emit : bool) (s : list (list (metric N))) : bool :=
+  forallb (fun g => forallb (fun m => forallb (fun ls =>
+     Bool.eqb (ls_repr ls) (representable {| omit_prog := omit; emit_ts := emit |} m ls)) (m_lvs m)) g) s.
+
 Definition c13_ok (c : c13case) : bool :=
   match c with
-  | CProm _ omit emit s obs => perm_eqb sample_eqb (c13_model omit emit s) obs
+  | CProm _ omit emit s obs => perm_eqb sample_eqb (c13_model omit emit s) obs && repr_agrees omit emit s
   end.
 
 Definition mismatches (l : list c13case) : list N := failing c13_ok c13_id l.
